@@ -97,3 +97,23 @@ fn for_range_u128(a: u128, n: u8) -> felt252 {
     for i in a..(a + (n % 5).into()) { s = s * 3 + i.into(); };
     s
 }
+fn ret_array(n: u8) -> Array<felt252> { build(n) }
+fn ret_span_tail(a: Array<u64>, skip: u32) -> Span<u64> {
+    let sp = a.span();
+    if skip > sp.len() { return sp; }
+    sp.slice(skip, sp.len() - skip)
+}
+fn ret_option_array(n: u8) -> Option<Array<u32>> {
+    if n % 2 == 0 { return None; }
+    let mut a = array![];
+    let mut i: u32 = 0;
+    while i != (n % 5).into() { a.append(i * i); i += 1; }
+    Some(a)
+}
+fn ret_boxed(a: u128, b: u8) -> Box<(u128, u8)> { BoxTrait::new((a, b)) }
+fn ret_array_of_pairs(n: u8) -> Array<(u8, felt252)> {
+    let mut a = array![];
+    let mut i: u8 = 0;
+    while i != n % 4 { a.append((i, i.into() * 100)); i += 1; }
+    a
+}
